@@ -117,7 +117,9 @@ def norm(x):
 
 
 def skey(s):
-    return json.dumps(norm(s), sort_keys=True)
+    # TLC prints one value always the same way; leg_walk cross-checks the
+    # number of distinct keys with TLC's count of distinct states.
+    return json.dumps(s, sort_keys=True)
 
 
 def plan_tour(edges, init_key, rng, target=None):
@@ -125,49 +127,82 @@ def plan_tour(edges, init_key, rng, target=None):
     current state if there is one, else the shortest path (over any edges) to
     the nearest state that has one.  target: set of edge indices to cover
     (default all).  Returns the list of edge indices walked."""
-    out_edges = {}
-    for i, e in enumerate(edges):
-        out_edges.setdefault(e["sk"], []).append(i)
-    want = set(range(len(edges))) if target is None else set(target)
-    left = {s: [i for i in idx if i in want] for s, idx in out_edges.items()}
-    for s in left:
-        rng.shuffle(left[s])
-    succ = {}
-    for s, idx in out_edges.items():
-        d = {}
-        for i in idx:
-            dk = edges[i]["dk"]
-            if dk != s and dk not in d:
-                d[dk] = i
-        succ[s] = d
-    remaining = sum(len(v) for v in left.values())
-    walk, cur = [], init_key
+    ids = {}
+    for e in edges:
+        for k in (e["sk"], e["dk"]):
+            if k not in ids:
+                ids[k] = len(ids)
+    n = len(ids)
+    src = [ids[e["sk"]] for e in edges]
+    dst = [ids[e["dk"]] for e in edges]
+    want = None if target is None else set(target)
+    left = [[] for _ in range(n)]
+    succ = [{} for _ in range(n)]
+    for i in range(len(edges)):
+        s, d = src[i], dst[i]
+        if want is None or i in want:
+            left[s].append(i)
+        if d != s and d not in succ[s]:
+            succ[s][d] = i
+    for l in left:
+        rng.shuffle(l)
+    succ = [list(d.items()) for d in succ]
+    remaining = sum(len(l) for l in left)
+    walk, cur = [], ids[init_key]
+    stamp = [0] * n
+    prev_s = [0] * n
+    prev_e = [0] * n
+    gen = 0
     while remaining:
-        if left.get(cur):
-            i = left[cur].pop()
+        l = left[cur]
+        if l:
+            i = l.pop()
             remaining -= 1
-        else:
-            prev, dq, goal = {cur: None}, deque([cur]), None
-            while dq:
-                u = dq.popleft()
-                if left.get(u):
-                    goal = u
-                    break
-                for v, ei in succ.get(u, {}).items():
-                    if v not in prev:
-                        prev[v] = (u, ei)
-                        dq.append(v)
-            if goal is None:
-                raise vlib.Inconclusive("tour: %d edges unreachable from the walk's position" % remaining)
-            path = []
-            u = goal
-            while prev[u] is not None:
-                u, ei = prev[u]
-                path.append(ei)
-            for ei in reversed(path):
-                walk.append(ei)
-            cur = goal
+            walk.append(i)
+            cur = dst[i]
             continue
+        gen += 1
+        stamp[cur] = gen
+        dq, goal = deque([cur]), -1
+        while dq and goal < 0:
+            u = dq.popleft()
+            for v, ei in succ[u]:
+                if stamp[v] != gen:
+                    stamp[v] = gen
+                    prev_s[v], prev_e[v] = u, ei
+                    if left[v]:
+                        goal = v
+                        break
+                    dq.append(v)
+        if goal < 0:
+            raise vlib.Inconclusive("tour: %d edges unreachable from the walk's position" % remaining)
+        path, u = [], goal
+        while u != cur:
+            path.append(prev_e[u])
+            u = prev_s[u]
+        path.reverse()
+        walk.extend(path)
+        cur = goal
+    return walk
+
+
+WEIGHTS = {"query": 45, "put": 20, "enable": 8, "disable": 7, "restart": 4, "tick": 10, "clset": 10, "cldel": 3}
+
+
+def random_walk(edges, start, rng, n):
+    """n seeded random steps from start: the action kind is drawn by WEIGHTS,
+    then one of the state's edges of that kind uniformly.  Histories the
+    edge-covering tour does not contain (the implementation may keep state the
+    specification does not have)."""
+    by_state = {}
+    for i, e in enumerate(edges):
+        by_state.setdefault(e["sk"], {}).setdefault(e["a"], []).append(i)
+    walk, cur = [], start
+    for _ in range(n):
+        kinds = by_state[cur]
+        names = sorted(kinds)
+        a = rng.choices(names, weights=[WEIGHTS.get(k, 1) for k in names])[0]
+        i = rng.choice(kinds[a])
         walk.append(i)
         cur = edges[i]["dk"]
     return walk
@@ -198,7 +233,7 @@ class G03:
             raise vlib.Inconclusive("implausibly small rule table")
 
     def tlc(self, cfg, **kw):
-        kw.setdefault("workers", 3)
+        kw.setdefault("workers", 2)
         kw.setdefault("heap", "3g")
         kw.setdefault("timeout", 600)
         r = self.ctx.tlc("SafeSearch", cfg, extra_files=self.extra, **kw)
@@ -236,8 +271,57 @@ class G03:
         return {"vectors": len(vecs), "evaluations": summ[0]["evaluations"], "nontrivial": nt, "flaky": summ[0]["flaky"],
                 "settings_changes": summ[0]["puts"]}
 
+    # -- responses (dnsforward) and verdicts with the real client life cycle (home)
+    def resp_vectors(self):
+        r = self.tlc("SafeSearch.resp.cfg")
+        vecs = [v for v in r["vectors"] if v.get("t") == "r"]
+        want = 8 * 10 * 4 * len(self.info["resp_names"])
+        if len(vecs) != want:
+            raise vlib.Inconclusive("responses: %d vectors, expected %d" % (len(vecs), want))
+        kinds = {(o["cname"] != "", o["addr"] != "", o["fromup"]) for v in vecs for outs in v["o"].values() for o in outs}
+        if len(kinds) < 4:
+            raise vlib.Inconclusive("vacuous response table: response shapes %s" % sorted(kinds))
+        return vecs
+
+    def leg_resp(self, vecs):
+        ctx = self.ctx
+        vin, vout = ctx.path("g03_resp_in.ndjson"), ctx.path("g03_resp_out.ndjson")
+        vlib.write_ndjson(vin, [{k: v[k] for k in ("t", "g", "cl", "prot", "who", "q", "lc", "o")} for v in vecs])
+        rc, out = ctx.go_test(PKG_DF, FILES, "^TestZZVerifG03Resp$", env={"VERIF_IN": vin, "VERIF_OUT": vout})
+        rows = vlib.read_ndjson(vout)
+        summ = [x for x in rows if x.get("kind") == "summary"]
+        if rc != 0 or not summ:
+            raise vlib.Inconclusive("G03 response replay did not complete:\n" + out[-3000:])
+        for x in rows:
+            if x.get("kind") == "bad":
+                ctx.disagreement(None, x, "response: %s; %s -- the specification admits %s (%s)" % (
+                    x["concrete"], x["problem"] or json.dumps(x["got"]), json.dumps(x["want"]), x["how"]))
+        nt = sum(1 for v in vecs if any(not (o["fromup"] and o["cname"] == "") for outs in v["o"].values() for o in outs))
+        self.samples.append({"response_vector": {k: vecs[len(vecs) // 2][k] for k in ("g", "cl", "prot", "who", "q", "o")}})
+        return {"vectors": len(vecs), "evaluations": summ[0]["evaluations"], "nontrivial": nt, "flaky": summ[0]["flaky"],
+                "reconfigurations": summ[0]["reconfigurations"]}
+
+    def leg_home(self, vecs):
+        ctx = self.ctx
+        vin, vout = ctx.path("g03_home_in.ndjson"), ctx.path("g03_home_out.ndjson")
+        vlib.write_ndjson(vin, [{k: v[k] for k in ("t", "g", "cl", "prot", "who", "q", "lc", "v")} for v in vecs])
+        rc, out = ctx.go_test(PKG_HOME, FILES, "^TestZZVerifG03Home$", env={"VERIF_IN": vin, "VERIF_OUT": vout})
+        rows = vlib.read_ndjson(vout)
+        summ = [x for x in rows if x.get("kind") == "summary"]
+        if rc != 0 or not summ:
+            raise vlib.Inconclusive("G03 home replay did not complete:\n" + out[-3000:])
+        for x in rows:
+            if x.get("kind") == "bad":
+                ctx.disagreement(None, x, "home: %s under g=%s client=%s answered %s, the specification admits %s (%s)" % (
+                    x["concrete"], json.dumps(x["g"]), json.dumps(x["cl"]), json.dumps(x["got"]), json.dumps(x["want"]), x["how"]))
+        if summ[0]["restarts"] == 0 or summ[0]["reconfigurations"] < 20:
+            raise vlib.Inconclusive("vacuous home leg: %s" % summ[0])
+        return {"vectors": len(vecs), "evaluations": summ[0]["evaluations"], "flaky": summ[0]["flaky"],
+                "reconfigurations": summ[0]["reconfigurations"], "restarts": summ[0]["restarts"],
+                "deprecated_client_form": summ[0]["deprecated_client_form"]}
+
     # -- walks
-    def leg_walk(self, cfg, tag, coverage=False, fraction=1.0):
+    def leg_walk(self, cfg, tag, coverage=False, fraction=1.0, extra=0, need=("pass", "cname", "ip", "nodata"), walk_it=True):
         ctx = self.ctx
         r = self.tlc(cfg, coverage=coverage)
         edges = [v for v in r["vectors"] if v.get("t") == "e"]
@@ -258,15 +342,23 @@ class G03:
         for e in edges:
             acts[e["a"]] = acts.get(e["a"], 0) + 1
         kinds = {o["k"] for e in edges if e["a"] == "query" for o in e["o"]}
-        if not {"pass", "cname", "ip", "nodata"} <= kinds:
+        if not set(need) <= kinds:
             raise vlib.Inconclusive("vacuous state machine %s: verdict kinds %s" % (cfg, sorted(kinds)))
+        if not walk_it:
+            return {"states": r["distinct"], "edges": len(edges), "edges_covered": 0, "steps": 0, "by_action": acts, "walked": False,
+                    "truncated_by_known_finding": 0, "exhaustive": True}
         init = {"g": {"en": False, "sv": []}, "cl": {"known": False, "own": False, "conf": {"en": False, "sv": []}}, "gc": [], "cc": []}
+        ctx.log("%s: graph of %d states, %d edges" % (tag, len(states), len(edges)))
         if skey(init) not in states:
             raise vlib.Inconclusive("%s: initial state not among the printed states" % cfg)
         target = None
         if fraction < 1.0:
             target = [i for i in range(len(edges)) if self.rng.random() < fraction]
         walk = plan_tour(edges, skey(init), self.rng, target)
+        tour_steps = len(walk)
+        ctx.log("%s: tour of %d steps planned" % (tag, tour_steps))
+        end = edges[walk[-1]]["dk"] if walk else skey(init)
+        walk += random_walk(edges, end, self.rng, extra)
         text = open(os.path.join(vlib.SPECS, cfg)).read()
         ttl = int(re.search(r"TTL\s*=\s*(\d+)", text).group(1))
         qtypes = re.findall(r'"(\w+)"', re.search(r"MCQtypes\s*=\s*\{([^}]*)\}", text).group(1))
@@ -294,10 +386,11 @@ class G03:
                 known += 1
         if summ[0]["live_entries_seen"] == 0:
             raise vlib.Inconclusive("vacuous walk %s: no engine was ever seen remembering a result" % tag)
-        covered = len(set(walk))
+        covered = len(set(walk[:tour_steps]))
         e0 = edges[walk[len(walk) // 2]]
         self.samples.append({"edge": {k: e0[k] for k in ("s", "a", "x", "d", "o")}})
-        return {"states": r["distinct"], "edges": len(edges), "edges_covered": covered, "steps": len(walk), "by_action": acts,
+        return {"states": r["distinct"], "edges": len(edges), "edges_covered": covered, "steps": len(walk), "tour_steps": tour_steps,
+                "random_steps": extra, "by_action": acts,
                 "truncated_by_known_finding": known, "flaky": summ[0]["flaky"], "resyncs": summ[0]["resyncs"],
                 "live_entries_seen": summ[0]["live_entries_seen"], "steps_memory_equal": summ[0]["steps_memory_equal"],
                 "exhaustive": covered == len(edges)}
@@ -375,14 +468,20 @@ def run(ctx):
     g = G03(ctx)
     g.generate()
     quick = ctx.quick
-    with concurrent.futures.ThreadPoolExecutor(max_workers=4) as ex:
+    with concurrent.futures.ThreadPoolExecutor(max_workers=8) as ex:
         f_table = ex.submit(g.leg_table)
-        f_mc = ex.submit(g.leg_walk, "SafeSearch.mc.cfg", "mc", True, 1.0)
-        f_cl = ex.submit(g.leg_walk, "SafeSearch.client.cfg", "client", False, 1.0)
+        extra = 20000 if quick else 200000
+        frac = 0.4 if quick else 1.0   # quick: the tours cover a seeded 40 % of the edges
+        f_mc = ex.submit(g.leg_walk, "SafeSearch.mc.cfg", "mc", False, frac, extra)
+        f_cl = ex.submit(g.leg_walk, "SafeSearch.client.cfg", "client", False, frac, extra, ("pass", "cname", "ip"))
         f_tr = ex.submit(g.leg_trace)
-        futures = {"table": f_table, "mc": f_mc, "client": f_cl, "trace": f_tr}
-        if not quick:
-            futures["mc3"] = ex.submit(g.leg_walk, "SafeSearch.mc3.cfg", "mc3", False, 1.0)
+        f_vecs = ex.submit(g.resp_vectors)
+        f_resp = ex.submit(lambda: g.leg_resp(f_vecs.result()))
+        f_home = ex.submit(lambda: g.leg_home(f_vecs.result()))
+        futures = {"table": f_table, "mc": f_mc, "client": f_cl, "trace": f_tr, "resp": f_resp, "home": f_home}
+        # The TTL-3 universe: TLC's own coverage statistics (vacuity) in both
+        # tiers, walked in the thorough tier only.
+        futures["mc3"] = ex.submit(g.leg_walk, "SafeSearch.mc3.cfg", "mc3", True, 1.0, extra, ("pass", "cname", "ip", "nodata"), not quick)
         res, first_err = {}, None
         for name, f in futures.items():
             try:
@@ -392,19 +491,19 @@ def run(ctx):
         if first_err:
             raise first_err
     walks = [res[k] for k in ("mc", "client", "mc3") if k in res]
-    evaluations = res["table"]["evaluations"] + sum(w["steps"] for w in walks) + res["trace"]["lines"]
+    evaluations = res["table"]["evaluations"] + res["resp"]["evaluations"] + res["home"]["evaluations"] + sum(w["steps"] for w in walks) + res["trace"]["lines"]
     cov = {
         "traces_validated_against_impl": sum(w["steps"] for w in walks) + res["trace"]["lines"],
         "evaluations": evaluations,
-        "distinct_nontrivial": res["table"]["nontrivial"] + sum(w["edges_covered"] for w in walks),
+        "distinct_nontrivial": res["table"]["nontrivial"] + res["resp"]["nontrivial"] + sum(w["edges_covered"] for w in walks),
         "rule": "table: one vector per (settings of the family, name of the generated universe), non-trivial = some query type is rewritten; "
                 "state machines: one step per labelled edge of SafeSearch.tla (reply and projected state compared after every step), "
                 "every edge counts; trace: one line per step of a seeded random history validated by TraceSafeSearch.tla",
         "rule_table": {"rules": len(g.rules), "services": g.info["services"]},
         "universe": {"table_names": len(g.info["table_names"]), "mc_names": g.info["mc_names"], "mc_svcs": g.info["mc_svcs"]},
-        "table": res["table"], "walks": {k: res[k] for k in ("mc", "client", "mc3") if k in res}, "trace": res["trace"],
+        "table": res["table"], "responses": res["resp"], "home": res["home"], "walks": {k: res[k] for k in ("mc", "client", "mc3") if k in res}, "trace": res["trace"],
         "truncated_by_known_finding": sum(w["truncated_by_known_finding"] for w in walks) + res["trace"]["rejected_known"],
-        "exhaustive": all(w["exhaustive"] for w in walks),
+        "exhaustive": all(w["exhaustive"] for w in walks) and all(w.get("walked", True) for w in walks),
         "samples": g.samples[:6],
     }
     return ctx.finish("model_checking", cov, assumptions=[
